@@ -1,7 +1,7 @@
 ---------------------------- MODULE MC_Amf0 ----------------------------
 EXTENDS Amf0, FiniteSets
 
-CONSTANTS StrLens, Level    \* Level 1: flat containers; 2: + one level of nesting; 3: + two
+CONSTANTS StrLens, Level    \* Level 1: flat containers; 2: + one level of nesting; 3: + two; 4: + wide two-member containers
 
 VARIABLES v, cut, act
 vars == <<v, cut, act>>
@@ -18,7 +18,9 @@ KeysS == { S(2, 9) }
 
 P1(ks, vals) == { <<[key |-> kk, v |-> x]>> : kk \in ks, x \in vals }
 P2(ks, vals) == { p \o q : p \in P1(ks, vals), q \in P1(ks, vals) }
-PairsOf(vals) == {<<>>} \cup P1(Keys, vals) \cup P2(KeysS, LeafS)
+\* Level 4 (thorough): two-member containers over every key (empty, repeated) x every leaf in second position
+P2x == { p \o q : p \in P1(Keys, LeafS), q \in P1(Keys, Leaf) }
+PairsOf(vals) == {<<>>} \cup P1(Keys, vals) \cup P2(KeysS, LeafS) \cup (IF Level >= 4 /\ vals = Leaf THEN P2x ELSE {})
 SeqsOf(vals) == {<<>>} \cup { <<x>> : x \in vals } \cup { <<x, y>> : x \in LeafS, y \in LeafS }
 Cnts(n) == { c \in {n - 1, n, n + 1, -1} : c >= -1 }
 
